@@ -26,7 +26,7 @@ from vlib.hsupport import THOROUGH, OutOfRange
 INT = lambda: shim.instance("builtins.int")  # noqa: E731
 STR = lambda: shim.instance("builtins.str")  # noqa: E731
 ELL = lambda: shim.expr_stmt(shim.mk(shim.N.EllipsisExpr))  # noqa: E731
-N_TOP = 6
+N_TOP = 7
 N_MEMBER = 15
 MAX_TOP = 2
 MAX_MEMBERS = 2
@@ -261,6 +261,12 @@ def decode_module(sel, cur, mod: str = "m", swap: bool = False) -> Built:
             v = shim.var(nm, INT(), fullname=f"{MQ}.{nm}", is_inferred=True)
             defs.append(shim.assignment([shim.name_expr(nm, f"{MQ}.{nm}", node=v)]))
             lines += [f"{nm} = 1", ""]
+        elif k == 6:  # a function defined inside a module-level 'if' (version / feature switches; TYPE_CHECKING blocks)
+            nm = f"c{i}"
+            b.features.add("conditional-definition")
+            defs.append(shim.if_stmt([[_fun(nm, f"{MQ}.{nm}", None, [])]]))
+            lines += ["if c:", f"    def {nm}() -> int: ...", ""]
+            b.expect.append({"kind": "function", "id": f"{MID}/{nm}", "owner": MID, "name": nm, "construct": "function-defined-inside-module-level-if"})
         else:  # a decorated module-level function (walker unwraps Decorator)
             nm = f"d{i}"
             defs.append(shim.decorator(_fun(nm, f"{MQ}.{nm}", None, [])))
@@ -276,6 +282,11 @@ def decode_module(sel, cur, mod: str = "m", swap: bool = False) -> Built:
         lines = lines[:pre] + ["class Base0: ...", ""] + lines[pre:]
         b.expect.append({"kind": "class", "id": f"{MID}/Base0", "owner": MID, "name": "Base0", "superclasses": [], "exception": False})
         defs.insert(1 if doc else 0, shim.class_def("Base0", f"{MQ}.Base0", [ELL()]))
+    if "conditional-definition" in b.features:
+        pre = 3 + (1 if doc else 0)
+        lines = lines[:pre] + ["c = bool(input())", ""] + lines[pre:]
+        cv = shim.var("c", shim.instance("builtins.bool"), fullname=f"{MQ}.c", is_inferred=True)
+        defs.insert(1 if doc else 0, shim.assignment([shim.name_expr("c", f"{MQ}.c", node=cv)]))
     if "decorated-function" in b.features:
         lines = lines[:3 + (1 if doc else 0)] + ["def deco(f):", "    return f", ""] + lines[3 + (1 if doc else 0):]
         b.expect.append({"kind": "function", "id": "pkg/m/deco", "owner": MID, "name": "deco"})
